@@ -124,6 +124,12 @@ class PointsH(_Arr):
         want_sep = (not all(sat(P))) if P.ndim == 1 else ([not all(sat(x)) for x in P] if P.ndim == 2 else [[not all(sat(x)) for x in grp] for grp in P])
         if np.asarray(p.separable(P)).astype(bool).tolist() != want_sep:
             bad.append("separable")
+        viol = lambda grp, i: any(not sat(x)[i] for x in grp)
+        rows = range(A.shape[0])
+        want_isp = ([not t for t in sat(P)] if P.ndim == 1 else [viol(P, i) for i in rows] if P.ndim == 2
+                    else [[viol(grp, i) for i in rows] for grp in P])
+        if np.asarray(p.ineq_separate_points(P)).astype(bool).tolist() != want_isp:
+            bad.append("ineq_separate_points")
         return bad
 
 
